@@ -35,6 +35,8 @@ pub struct GenCfg {
 }
 
 pub const NAMES3: &[&str] = &["a", "b", "c"];
+/// three names of which one is a string prefix of another
+pub const NAMES_PFX: &[&str] = &["a", "ab", "b"];
 pub const NAMES_ADV: &[&str] = &["a", "b", "ab", "c", "é", "日本", "d e", ".hid", "x.tar.gz", "..x", "😀"];
 
 fn sel() -> impl Strategy<Value = Sel> {
